@@ -156,7 +156,7 @@ pub fn c03_from_iter<const N: usize>() {
     if panicked { vf::reach(1); }
     vf::check(panicked, 711);
     if vf::COUNTS_PANICS { vf::check(vf::panics() == panics0 + 1, 712); }
-    vf::check(pulled == N + 1, 715);
+    vf::check(pulled <= N + 1, 715); // nothing is pulled past the item that does not fit
     vf::check(tok::balanced(), 302); // the half-built map and the rejected pair were all destroyed exactly once
 }
 
